@@ -630,6 +630,91 @@ func checkC18(p *Prog, r *Report) {
 	if f := p.Fn("listenUDPInPortRange"); r.Anchor("listenUDPInPortRange", f != nil) {
 		p.checkPortScan(f, r)
 	}
+	// ---- R18.10 no wildcard socket behind a filter --------------------------------------------------------
+	r.Rule("R18.10", "In the agent's gathering code a UDP socket is bound to the wildcard address (a net.UDPAddr without IP) only where both the interface filter and the IP filter are known to be unset; with a filter configured the sockets are bound to the addresses the filters accepted (and to none when they accepted none).", 2)
+	filterFields := []string{"Agent.interfaceFilter", "Agent.ipFilter"}
+	for _, f := range p.AllFuncs {
+		if f.Body == nil || f.Pkg != p.Ice || !strings.HasPrefix(f.Root().Name, "Agent.gather") {
+			continue
+		}
+		f := f
+		walkBody(f, func(x ast.Node) bool {
+			cl, ok := x.(*ast.CompositeLit)
+			if !ok || typeStr(p.TypeOf(cl)) != "net.UDPAddr" {
+				return true
+			}
+			wild := true
+			for _, el := range cl.Elts {
+				if kv, isKV := el.(*ast.KeyValueExpr); isKV {
+					if id, isI := kv.Key.(*ast.Ident); isI && id.Name == "IP" && !p.isNilExpr(kv.Value) {
+						wild = false
+					}
+				} else {
+					wild = false // positional literal: not the idiom, decided elsewhere
+				}
+			}
+			if !wild {
+				return true
+			}
+			unset := map[string]bool{}
+			var note func(e ast.Expr, val bool, fn *Func, depth int)
+			note = func(e ast.Expr, val bool, fn *Func, depth int) {
+				e = unparen(e)
+				if depth > 3 {
+					return
+				}
+				switch y := e.(type) {
+				case *ast.UnaryExpr:
+					if y.Op == token.NOT {
+						note(y.X, !val, fn, depth+1)
+					}
+				case *ast.BinaryExpr:
+					switch {
+					case y.Op == token.LOR && !val:
+						note(y.X, false, fn, depth+1)
+						note(y.Y, false, fn, depth+1)
+					case y.Op == token.LAND && val:
+						note(y.X, true, fn, depth+1)
+						note(y.Y, true, fn, depth+1)
+					case (y.Op == token.EQL && val) || (y.Op == token.NEQ && !val):
+						for _, ff := range filterFields {
+							if (p.IsField(y.X, ff) && p.isNilExpr(y.Y)) || (p.IsField(y.Y, ff) && p.isNilExpr(y.X)) {
+								unset[ff] = true
+							}
+						}
+					}
+				case *ast.Ident:
+					if o := p.ObjOf(y); o != nil {
+						if d, okD := p.SingleDef(fn, o); okD && d.Rhs != nil {
+							note(d.Rhs, val, fn, depth+1)
+						}
+					}
+				}
+			}
+			for fn := f; fn != nil; fn = fn.Parent {
+				for _, ft := range p.DominatingFactList(fn, cl) {
+					switch ft.Op {
+					case "truth":
+						note(ft.X, ft.Val, fn, 0)
+					case "==":
+						if ft.Val {
+							for _, ff := range filterFields {
+								if (p.IsField(ft.X, ff) && p.isNilExpr(ft.Y)) || (ft.Y != nil && p.IsField(ft.Y, ff) && p.isNilExpr(ft.X)) {
+									unset[ff] = true
+								}
+							}
+						}
+					}
+				}
+			}
+			r.Check(unset[filterFields[0]] && unset[filterFields[1]], "wildcard UDP socket in "+f.Name, p.Pos(cl.Pos()), "only where interfaceFilter == nil and ipFilter == nil", fmt.Sprintf("a socket is bound to the wildcard address where the filters are not known to be unset (interface filter unset: %v, IP filter unset: %v): with filters that accept no (or not this) address the agent still publishes a reflexive candidate whose base sits on an address the filters excluded", unset[filterFields[0]], unset[filterFields[1]]))
+			return true
+		})
+	}
+
+	// ---- R18.9 one end-of-candidates per live cycle ------------------------------------------------------
+	r.Rule("R18.9", "The nil (end-of-candidates) event has exactly one source, and it is taken only by a gathering cycle that has not been cancelled, on the state actually changing, with target Complete (shared with C11 R11.6): a cycle cancelled by Restart never contributes a nil to the next cycle's stream, and repeated completion never yields a second one.", 1)
+	checkCandidateEventSources(p, r, false)
 }
 
 // usesShallow: like uses, but does not descend into nested function literals
